@@ -132,10 +132,21 @@ def _lam(expr):
 
 
 def _store_names(node):
+  """Names bound by this statement in the CURRENT scope (comprehension targets, lambda
+  arguments and nested function bodies bind in their own scopes)."""
   out = []
-  for n in ast.walk(node):
+
+  def rec(n):
+    if isinstance(n, (ast.ListComp, ast.SetComp, ast.DictComp, ast.GeneratorExp, ast.Lambda)):
+      return
     if isinstance(n, ast.Name) and isinstance(n.ctx, (ast.Store,)):
       out.append(n.id)
+    for ch in ast.iter_child_nodes(n):
+      if isinstance(ch, (ast.FunctionDef, ast.ClassDef)) and ch is not node:
+        continue
+      rec(ch)
+
+  rec(node)
   return out
 
 
@@ -155,6 +166,9 @@ class _Reads(ast.NodeTransformer):
     return node          # lambdas are separate graphs; not instrumented
 
   def visit_ListComp(self, node):
+    # only the FIRST iterable of a comprehension is evaluated in the enclosing scope
+    if node.generators:
+      node.generators[0].iter = self.visit(node.generators[0].iter)
     return node
 
   visit_SetComp = visit_DictComp = visit_GeneratorExp = visit_ListComp
